@@ -85,6 +85,9 @@ def cases(ctx):
         for n1 in (1, 2):
             if mine():
                 yield {"kind": "early", "numbers": [n0, n1]}
+    for _ in range(ctx.n(60, 3000) * ctx.nshards):
+        if mine():
+            yield {"kind": "request-session", "steps": rng.choice([25, 50]), "seed": rng.randrange(2**31)}
     # ---- result side --------------------------------------------------------------------------------------
     for role in ("create", "recv"):
         for api in ("keep", "keep_with_info", "measure", "rsp"):
@@ -188,7 +191,129 @@ def _early(ctx, case):
     ctx.case(case, True)
 
 
+POOL = [{}, {"max_time": 5, "time_unit": "SECONDS"}, {"max_time": 2, "time_unit": "MILLI_SECONDS"}, {"basis_local": "X"},
+        {"basis_remote": "X"}, {"rotations_local": [1, 8, 16]}, {"rotations_remote": [16, 8, 1]}, {"random_basis_local": "XZ"}]
+
+
+def _req_session(ctx, case):
+    """A long-lived controller and a host whose connections come and go (two may be open at once, each building requests before
+    either is flushed; a closed one is followed by another with the same application id; EPR socket objects are reused by the
+    next connection; the network's node numbering may change between runs).  Every request that reaches the network stack
+    during a flush must be the next create call of THAT connection: its parameters, its remote node, its socket."""
+    import random
+    from netqasm import qlink_compat as ql
+    from netqasm.sdk.build_epr import EprMeasBasis
+    from netqasm.sdk.epr_socket import EPRSocket
+    r = random.Random(case["seed"])
+    ids = dict(NODE_IDS)
+    link = LinkModel([], partners=False)
+
+    def new_socks():
+        return {"bob": EPRSocket("bob", epr_socket_id=0, remote_epr_socket_id=0), "charlie": EPRSocket("charlie", epr_socket_id=1, remote_epr_socket_id=1)}
+    socks0 = new_socks()
+    pipe = Pipe(epr_sockets=list(socks0.values()), link=link, max_qubits=2)
+    conns = {0: {"conn": pipe.conn, "socks": socks0, "pending": [], "ids": dict(ids)}}
+    spare_socks = []
+    nxt = 1
+    hist = []
+
+    def kwargs(prm):
+        kw = {}
+        for k2, v in prm.items():
+            kw[k2] = (ql.TimeUnit[v] if k2 == "time_unit" else ql.RandomBasis[v] if k2.startswith("random_basis") else
+                      EprMeasBasis[v] if k2.startswith("basis") else tuple(v) if k2.startswith("rotations") else v)
+        return kw
+
+    def plain(v):
+        return v.value if hasattr(v, "value") and not isinstance(v, int) else v
+
+    def flush(slot):
+        c = conns[slot]
+        for e in c["pending"]:
+            link.plan.append(PlannedRequest("create", "M", e["number"], remote=e["remote_node_id"], socket=e["purpose_id"]))
+        n0 = len(pipe.stack.puts)
+        c["conn"].flush()
+        got = pipe.stack.puts[n0:]
+        if len(got) != len(c["pending"]):
+            return f"connection {slot} (app id {c['conn'].app_id}) issued {len(c['pending'])} create calls but {len(got)} requests reached the network stack"
+        for i, (g, e) in enumerate(zip(got, c["pending"])):
+            for f, w in e.items():
+                if f == "call":
+                    continue
+                ctx.count("request_fields_compared")
+                if plain(getattr(g, f)) != w:
+                    return (f"connection {slot} (app id {c['conn'].app_id}), request {i} of this flush ({e['call']}): field {f} reaches the network "
+                            f"stack as {plain(getattr(g, f))!r}, the application passed {w}")
+        ctx.count("session_requests_compared", len(got))
+        c["pending"] = []
+        return None
+    try:
+        for step in range(case["steps"]):
+            k = r.choice(["create", "create", "create", "flush", "open", "close", "renumber"])
+            if k == "open" and len(conns) < 2:
+                socks = spare_socks.pop() if (spare_socks and r.random() < 0.6) else new_socks()
+                conns[nxt] = {"conn": pipe.open(epr_sockets=list(socks.values()), max_qubits=2), "socks": socks, "pending": [], "ids": dict(ids)}
+                hist.append(("open", nxt, conns[nxt]["conn"].app_id))
+                ctx.count("session_connections_opened")
+                nxt += 1
+                continue
+            if k == "renumber" and not conns:
+                ids["bob"], ids["charlie"] = r.choice([(1, 2), (2, 1), (5, 7), (7, 1)])
+                hc.set_node_ids(ids)
+                hist.append(("renumber", ids["bob"], ids["charlie"]))
+                ctx.count("session_renumberings")
+                continue
+            if not conns:
+                continue
+            slot = r.choice(sorted(conns))
+            c = conns[slot]
+            if k == "create":
+                who = r.choice(["bob", "bob", "charlie"])
+                prm = dict(r.choice(POOL))
+                number = r.choice([1, 1, 2])
+                c["socks"][who].create_measure(number, **kwargs(prm))
+                rl = tuple(prm.get("rotations_local") or (BASIS_ROT[prm["basis_local"]] if prm.get("basis_local") else (0, 0, 0)))
+                rr = tuple(prm.get("rotations_remote") or (BASIS_ROT[prm["basis_remote"]] if prm.get("basis_remote") else (0, 0, 0)))
+                e = {"call": f"create_measure({number}, {prm}) to {who}", "remote_node_id": c["ids"][who], "purpose_id": 0 if who == "bob" else 1,
+                     "number": number, "type": 1, "max_time": prm.get("max_time", 0),
+                     "random_basis_local": 1 if prm.get("random_basis_local") else 0,
+                     "rotation_X_local1": rl[0], "rotation_Y_local": rl[1], "rotation_X_local2": rl[2],
+                     "rotation_X_remote1": rr[0], "rotation_Y_remote": rr[1], "rotation_X_remote2": rr[2]}
+                if prm.get("max_time"):
+                    e["time_unit"] = {"MICRO_SECONDS": 0, "MILLI_SECONDS": 1, "SECONDS": 2}[prm["time_unit"]]
+                c["pending"].append(e)
+                hist.append(("create", slot, who, number, prm))
+            elif k == "flush":
+                hist.append(("flush", slot))
+                err = flush(slot)
+                if err:
+                    ctx.fail(case, f"host history {hist[-10:]}: {err}")
+                    return ctx.case(case, True)
+            elif k == "close":
+                hist.append(("close", slot))
+                err = flush(slot)
+                if err:
+                    ctx.fail(case, f"host history {hist[-10:]}: {err}")
+                    return ctx.case(case, True)
+                c["conn"].close()
+                spare_socks.append(c["socks"])
+                del conns[slot]
+        for slot in list(conns):
+            err = flush(slot)
+            if err:
+                ctx.fail(case, f"host history {hist[-10:]}: {err}")
+                return ctx.case(case, True)
+            conns[slot]["conn"].close()
+    except (hc.ControllerFault, hc.Deadlock, hc.StepLimit) as e:
+        ctx.fail(case, f"host history {hist[-10:]}: controller run failed: {e}")
+    finally:
+        hc.set_node_ids(NODE_IDS)
+    ctx.case(case, True)
+
+
 def run_case(ctx, case):
+    if case["kind"] == "request-session":
+        return _req_session(ctx, case)
     if case["kind"] == "early":
         return _early(ctx, case)
     if case["kind"] == "requests":
